@@ -38,6 +38,9 @@ def run_program(image, ops, mount=None, model=None, on_step=None, stop_on_disagr
             now = clock_tuple(i + 1)
             clk.t = now
             ires, iw = ir.op(op)
+            if ires[0] == "skip":
+                out["steps"].append({"op": op, "impl": ["skip", None], "nwrites": 0})
+                continue
             step = {"op": op, "impl": canon(list(ires)), "nwrites": len(iw)}
             if op[0] in MODEL_OPS:
                 mres, mw = mr.op(op, now)
